@@ -462,6 +462,28 @@ pub fn run(cfg: &Cfg) -> Report {
         st
     });
     stats.merge(context_free_histories(cfg.tier.pick(2, 3)));
+    // scaling families: long expressions of every result type through every entry point
+    {
+        let ctxs = contexts();
+        for n in super::scale::sizes(cfg.tier == Tier::Thorough) {
+            for src in [
+                format!("{}1", "1 + ".repeat(n)),
+                format!("{}1.5", "1.5 * ".repeat(n)),
+                format!("{}\"s\"", "\"s\" + ".repeat(n)),
+                format!("{}true", "! ".repeat(n)),
+                format!("{}a", "1 , ".repeat(n)),
+                format!("{}a", "a = 1 ; ".repeat(n)),
+                format!("{}1{}", "( ".repeat(n), " )".repeat(n)),
+                format!("{}a", "f ".repeat(n)),
+                format!("{}", "1 ; ".repeat(n)),
+                format!("{}&", "1 + ".repeat(n)),
+                format!("a = 0 ; {}a", "a += 1 ; ".repeat(n)),
+            ] {
+                check(&src, &ctxs, &mut stats);
+                stats.count("scaling-family-sources");
+            }
+        }
+    }
     stats.transitions = stats.evaluations;
     for src in ["a = 1.5 ; a", "f ( 1 , true )", "1 + &", "( a , \"s\" )"] {
         stats.sample(json!({"source": src, "eval": format!("{:?}", eval(src)), "eval_number": format!("{:?}", eval_number(src)), "eval_tuple": format!("{:?}", eval_tuple(src))}));
@@ -474,7 +496,7 @@ pub fn run(cfg: &Cfg) -> Report {
     Report {
         property: ID,
         level: "model_checking",
-        rule: format!("every token sequence of length <= {max} over the {a}-token alphabet `1 1.5 \"s\" true a f len ( ) , ; + = ! &` (well-formed or not; reaches all six result types and every error stage) x 11 contexts (fresh; a bound to each of the six types; user function f; builtins disabled; a user function shadowing the builtin `len`) x all 24 string-level entry points (run twice) + the 24 Node methods + build_operator_tree; oracle: each typed result is the projection of the matching untyped result, `_mut` variants leave the same context, tree level = string level, context-free = fresh HashMapContext, precompile error passed through by all 48; plus every history of 2 (quick) / 3 (thorough) context-free calls over a pool of 21 sources (assignments, assignments followed by a failure, reads, retypes) run back to back on one thread: the last call must behave as evaluation in a fresh context. States = sources, transitions = entry-point executions. Non-trivial = sources of >= 2 tokens (each enumerated once)"),
+        rule: format!("every token sequence of length <= {max} over the {a}-token alphabet `1 1.5 \"s\" true a f len ( ) , ; + = ! &` (well-formed or not; reaches all six result types and every error stage) x 11 contexts (fresh; a bound to each of the six types; user function f; builtins disabled; a user function shadowing the builtin `len`) x all 24 string-level entry points (run twice) + the 24 Node methods + build_operator_tree; oracle: each typed result is the projection of the matching untyped result, `_mut` variants leave the same context, tree level = string level, context-free = fresh HashMapContext, precompile error passed through by all 48; plus every history of 2 (quick) / 3 (thorough) context-free calls over a pool of 21 sources (assignments, assignments followed by a failure, reads, retypes) run back to back on one thread: the last call must behave as evaluation in a fresh context; plus scaling families (sums, products, concatenations, negations, tuples, chains of assignments, nestings, call chains of n elements for n in 1..20 and up to 129 / 1..40 and up to 400) through all entry points. States = sources, transitions = entry-point executions. Non-trivial = sources of >= 2 tokens (each enumerated once)"),
         nontrivial_set: "counter:nontrivial-distinct",
         exhaustive: true,
         bound_completed: format!("token sequences of length {max}"),
